@@ -103,6 +103,21 @@ std::vector<TV> data_values() {
     return L;
 }
 
+std::vector<std::string> type_names() {
+    static const char* builtin[] = {"bool", "int", "unsigned int", "long int", "unsigned long int", "long long int", "unsigned long long int",
+                                    "double", "const char*", "void*", "const void*", "void (*)()", "const unsigned char*"};
+    std::vector<std::string> L;
+    auto add = [&](const std::string& n) { for (auto& x : L) if (x == n) return; L.push_back(n); };
+    for (const char* b : builtin) {
+        std::string n = b, up = b;
+        for (auto& c : up) if (c >= 'a' && c <= 'z') c = (char)(c - 'a' + 'A');
+        add(n + "*"); add(n + "x"); add(n.substr(0, n.size() - 1)); add(up);      // not the name itself: an object whose type is
+        // called exactly like a built-in has its pointer bits read as that built-in by both interfaces (undefined, address dependent)
+    }
+    add("T"); add("Point");
+    return L;
+}
+
 } // namespace
 
 void run_typed_sections() {
@@ -220,6 +235,36 @@ void run_typed_sections() {
             differential(p, oc);
         });
         vf::require_outcomes("outparam", 20);
+    }
+    // ---------------------------------------------------------------- typenames: custom type names around the built-in type names
+    {
+        static std::vector<std::string> N = type_names();
+        long nN = (long)N.size();
+        vf::info("typenames.bound", vf::fmt("%ld custom type names: for each of the 13 built-in type strings of the C value conversion (bool, int, unsigned int, long int, unsigned long int, long long int, unsigned long long int, double, const char*, void*, const void*, void (*)(), const unsigned char*) the name + '*', the name + 'x', the name without its last character and its upper-case spelling, plus the plain names T and Point; x 14 uses: setDataObject / setDataConstObject of an object or NULL then getData (tag and value); withParameterOfType on both sides with a C comparator installed under that name or not x {equal object, different object, actual of type T}; withOutputParameterOfTypeReturning with a C copier installed under that name or not x {actual of the same type, plain actual output parameter}", nN));
+        vf::section_index("typenames", nN * 14, [&](long idx) {
+            const char* name = N[idx / 14].c_str(); int use = (int)(idx % 14);
+            Program p;
+            if (use < 4) {
+                void* obj = (use & 1) ? nullptr : (void*)&g_t[0];
+                p.set_data("k", (use & 2) ? vcobj(obj) : vobj(obj), name);
+                p.get_data("k");
+                p.usual_teardown();
+            } else if (use < 10) {
+                int u = use - 4, installed = u / 3, what = u % 3;
+                if (installed) { p.install_cmp(name, 0); p.install_cmp("T", 0); }
+                p.expect_one("f"); p.e_param("p", vobj(&g_t[0]), name);
+                p.actual("f"); p.a_param("p", vobj(what == 1 ? &g_t[1] : &g_t[2]), what == 2 ? "T" : name);
+                p.end_body(); p.simple(C19_CHECK); p.simple(C19_CLEAR); p.simple(C19_REMOVE_ALL);
+            } else {
+                int u = use - 10, installed = u / 2, plain = u % 2;
+                if (installed) p.install_cpy(name, 0);
+                p.expect_one("f"); p.e_out_typed(name, "o", &g_t[3]);
+                p.actual("f"); if (plain) p.a_out("o", 0); else p.a_out_typed(name, "o", 0);
+                p.end_body(); p.simple(C19_CHECK); p.simple(C19_CLEAR); p.simple(C19_REMOVE_ALL);
+            }
+            differential(p, vf::fmt("%s/%d", name, use));
+        });
+        vf::require_outcomes("typenames", 100);
     }
     // ---------------------------------------------------------------- data store
     {
